@@ -182,6 +182,11 @@ func genBatchReq(r *fw.Rng) *batchReq {
 	// content: pick the kind so that ties and differences in part counts both occur
 	kinds := []codingKind{kASCII, kLatin1, kUCS2, kGB, kGSMUnpacked, kGSMPacked}
 	kind := kinds[r.Intn(len(kinds))]
+	if threshText != "" {
+		b.content = threshText
+		b.ref = byte(r.Pick(0, 1, 107, 255))
+		return b
+	}
 	if edgeUnits > 0 && edgeMulti {
 		// only multi-unit characters: blind cutting needs <= 255 parts where whole-character cutting needs more
 		var ch rune
@@ -228,6 +233,9 @@ func genBatchReq(r *fw.Rng) *batchReq {
 
 // edgeKind/edgeUnits: when set (edge255 stage; one goroutine per worker) genBatchReq builds a content of
 // exactly that many capacity units under that coding.
+// threshText: when set (threshold stage) genBatchReq uses this content.
+var threshText string
+
 var (
 	edgeKind  codingKind
 	edgeUnits int
@@ -393,6 +401,67 @@ func init() {
 					edgeMulti = c.Idx/72%2 == 1 && (kind == kUCS2 || kind == kGB || kind == kGSMUnpacked || kind == kGSMPacked)
 					defer func() { edgeUnits, edgeMulti = 0, false }()
 					c09Case(c, 2, false)
+				},
+			},
+			{
+				// contents that sit exactly at the single-SMS threshold under ONE way of counting (characters, UTF-16 units,
+				// GB18030 octets, septets, UTF-8 octets) and not under the others: any shortcut that counts the wrong thing
+				// picks another winner here
+				Name: "threshold", N: q(6000, 300000),
+				Run: func(c *fw.Case) {
+					r := c.R
+					// a few wide characters, the rest ASCII filler up to the target under the chosen metric
+					wide := []rune{0x1f600, 0x0e01, '中', '[', 'é', 0x20000, '€'}
+					var rs []rune
+					for i, k := 0, r.Range(0, 4); i < k; i++ {
+						rs = append(rs, wide[r.Intn(len(wide))])
+					}
+					metric := r.Intn(5)
+					target := []int{70, 70, 140, 160, 140}[metric] + r.Range(-1, 1)
+					count := func(rs []rune) int {
+						n := 0
+						for _, x := range rs {
+							switch metric {
+							case 0: // characters
+								n++
+							case 1: // UTF-16 units
+								if x > 0xffff {
+									n += 2
+								} else {
+									n++
+								}
+							case 2: // GB18030 octets
+								switch {
+								case x < 0x80:
+									n++
+								case x == '中' || x == '€' || x == 'é':
+									n += 2
+								default:
+									n += 4
+								}
+							case 3: // septets
+								if x == '[' || x == '€' {
+									n += 2
+								} else {
+									n++
+								}
+							default: // UTF-8 octets
+								n += len(string(x))
+							}
+						}
+						return n
+					}
+					for count(rs) < target {
+						rs = append(rs, rune('a'+r.Intn(26)))
+					}
+					for i := len(rs) - 1; i > 0; i-- { // shuffle
+						j := r.Intn(i + 1)
+						rs[i], rs[j] = rs[j], rs[i]
+					}
+					threshText = string(rs)
+					defer func() { threshText = "" }()
+					c09Case(c, 2, false)
+					c.Cover(fmt.Sprintf("threshold/metric%d", metric))
 				},
 			},
 			{
